@@ -460,7 +460,8 @@ func runChains(c *vlib.Ctx, st *stats, cov *chainCov, o judgeOpts) (behaviours, 
 			if rng.Intn(3) != 0 {
 				return
 			}
-			for j := 0; j < extend; j++ {
+			nExt := extend/2 + rng.Intn(extend)
+			for j := 0; j < nExt; j++ {
 				b := sim.Seal(nil, nil)
 				bs := sim.Supplement(nil)
 				if err, pan := sim.Validate(b, bs); err != nil || pan != nil {
@@ -473,7 +474,7 @@ func runChains(c *vlib.Ctx, st *stats, cov *chainCov, o judgeOpts) (behaviours, 
 			cov.mu.Lock()
 			cov.extended++
 			cov.mu.Unlock()
-			probeState(c, st, cov, sim, tk, cur, rng, o, v2budget, map[string]any{"behaviour": beh.Steps, "then_empty_blocks": extend}, 16)
+			probeState(c, st, cov, sim, tk, cur, rng, o, v2budget, map[string]any{"behaviour": beh.Steps, "then_empty_blocks": nExt}, 16)
 		},
 	}
 	for _, name := range []string{"v1only", "mixed", "v2only"} {
